@@ -72,8 +72,8 @@ def mesh_case(ck, rng, label, crys, ex, Nmesh):
         res["error"] = "%s: %s" % (type(e).__name__, e); return res
     Nk = int(np.prod(Nmesh))
     res.update(Nk=Nk, Nred=len(kred))
-    L = 1
-    for N in Nmesh: L = sg.lcm(L, int(N))
+    L = 1                                   # the code's mesh is  f = 1/2 - j/N :  multiples of 1/(2N)
+    for N in Nmesh: L = sg.lcm(L, 2 * int(N))
     def coords(k):
         f = np.dot(crys.lattice.T, k) / (2 * np.pi) * L
         n = np.round(f)
@@ -115,11 +115,19 @@ def mesh_case(ck, rng, label, crys, ex, Nmesh):
     res["uncovered"] = len(set(cl_full) - set(cl_red))
     res["nclasses"] = len(mult)
     # regular grid? (information)
-    want = set(tuple([(L // int(Nmesh[k])) * m[k] % L for k in range(dim)] + [0] * (3 - dim)) for m in itertools.product(*[range(int(N)) for N in Nmesh]))
+    want = set(tuple([(L // 2 - (L // int(Nmesh[k])) * m[k]) % L for k in range(dim)] + [0] * (3 - dim)) for m in itertools.product(*[range(int(N)) for N in Nmesh]))
     got = [tuple([x % L for x in n[:dim]] + [0] * (3 - dim)) for n in full]
     res["regular"] = (set(got) == want and len(set(got)) == len(got))
-    # implementation's own inBZ (supporting)
+    # implementation's own inBZ on every mesh point, and its BZG against the exact Voronoi-relevant vectors
     res["self_inbz_false"] = sum(1 for k in kfull0 if not crys.inBZ(k))
+    res["inbz_wrong"] = [i for i, (k, n) in enumerate(zip(kfull0, full)) if bool(crys.inBZ(k)) != inbz(n)][:5]
+    nz = [h for h in box if any(h)]
+    relevant = set(h for h in nz if all(sg.bil6(m6, h, h2) < sg.bil6(m6, h2, h2) for h2 in nz if h2 != h))
+    impl_bzg = set()
+    for Gh in crys.BZG:
+        f = np.dot(crys.lattice.T, 2 * Gh) / (2 * np.pi)
+        impl_bzg.add(tuple([int(round(x)) for x in f] + [0] * (3 - dim)))
+    res["bzg_exact"] = len(relevant); res["bzg_ok"] = (impl_bzg == relevant)
     # ---- invariant shell functions in floats ------------------------------------------------
     ferr = 0.0; fbad = None
     for rep in range(4):
@@ -165,8 +173,10 @@ def report(ck, res, coq):
     if "error" in res:
         ck.violation("fullkptmesh/reducekptmesh(%s, Nmesh=%s): %s" % (res["label"], res["Nmesh"], res["error"]), rep, key="c22-malformed"); return
     bad = []
-    if res["full_out"]: bad.append(("c22-full-mesh-outside-BZ", "full-mesh point(s) %s lie outside the first Brillouin zone (|BZG| = %d)" % (res["full_out"], res["BZG"])))
-    if res["red_out"]: bad.append(("c22-reduced-mesh-outside-BZ", "reduced-mesh point(s) %s lie outside the first Brillouin zone" % res["red_out"]))
+    cause = "fold-single-pass" if res["bzg_ok"] else "bzg-incomplete"
+    if res["full_out"]: bad.append(("c22-full-mesh-outside-BZ-" + cause, "full-mesh point(s) %s lie outside the first Brillouin zone (BZG has %d vectors, the Brillouin zone %d facets)" % (res["full_out"], res["BZG"], res["bzg_exact"])))
+    if res["red_out"]: bad.append(("c22-reduced-mesh-outside-BZ-" + cause, "reduced-mesh point(s) %s lie outside the first Brillouin zone" % res["red_out"]))
+    if res["inbz_wrong"]: bad.append(("c22-inBZ-wrong-" + cause, "inBZ() disagrees with exact Brillouin-zone membership for full-mesh point(s) %s (BZG has %d vectors, the Brillouin zone %d facets)" % (res["inbz_wrong"], res["BZG"], res["bzg_exact"])))
     if res["bad_weight"] or res["dup_reps"] or res["uncovered"]:
         bad.append(("c22-wrong-weights", "weights are not the orbit multiplicities: (index, count, exact) %s; equivalent representatives %d; classes without representative %d" %
                     (res["bad_weight"], res["dup_reps"], res["uncovered"])))
@@ -221,4 +231,5 @@ def run(ck):
     ck.extra["mesh_points_checked"] = sum(c.get("Nk", 0) for c in cases)
     ck.extra["full_mesh_regular_grid_all"] = all(c.get("regular", True) for c in cases)
     ck.extra["impl_inBZ_false_points"] = sum(c.get("self_inbz_false", 0) for c in cases)
+    ck.extra["BZG_differs_from_exact_facets"] = sum(1 for c in cases if c.get("bzg_ok") is False)
     ck.extra["max_shell_function_error"] = max([c.get("ferr", 0.0) for c in cases] + [0.0])
